@@ -379,7 +379,44 @@ async fn gen_proc(sim: &mut Sim, rng: &mut Prng, stats: &mut Stats, name: &str) 
                     }
                 }
             }
-            54..=67 => {
+            66..=67 => {
+                // the answer to a SYN of m is delayed; meanwhile the owner n deletes, collects, and
+                // answers a second SYN of m with a RESET that the datagram limit cuts after the first
+                // (36 kB) value: m's copy is left with watermark > max version.  The delayed answer
+                // (from = m's old max version, between the two) then arrives.
+                let m = rng.below(live_nodes as u64) as usize;
+                if m != n && rng.chance(1, 4) {
+                    stats.bump("op_delayed_answer_after_truncated_reset");
+                    let a = high_entropy_string(rng, 36_000);
+                    let b = high_entropy_string(rng, 36_000);
+                    sim.set(n, "ta", &a);
+                    sim.set(n, "tb", &b);
+                    sim.set(n, "tc", "1");
+                    sim.set(n, "td", "2");
+                    for _ in 0..3 {
+                        full_handshake(sim, m, n);
+                    }
+                    sim.delete(n, "td");
+                    sim.set(n, "te", "3");
+                    let held = sim.syn(m).and_then(|s| sim.deliver(n, &s));
+                    sim.tick(kv_grace).await;
+                    sim.gc(n);
+                    if let Some(syn2) = sim.syn(m) {
+                        if let Some(synack2) = sim.deliver(n, &syn2) {
+                            sim.deliver(m, &synack2);
+                        }
+                    }
+                    if let Some(h) = held {
+                        if let Some(ack) = sim.deliver(m, &h) {
+                            pool.push(ack);
+                        }
+                    }
+                    if rng.chance(1, 2) {
+                        full_handshake(sim, m, n);
+                    }
+                }
+            }
+            54..=65 => {
                 // deliver any message from the pool to any node
                 if !pool.is_empty() {
                     let i = rng.below(pool.len() as u64) as usize;
@@ -413,7 +450,38 @@ async fn gen_proc(sim: &mut Sim, rng: &mut Prng, stats: &mut Stats, name: &str) 
                     }
                 }
             }
-            88..=93 => {
+            88..=88 => {
+                // key "a" (the one the configured liveness predicates look at) is given a TTL or
+                // deleted, everybody evaluates, the grace period passes, tombstone GC removes it —
+                // no max version moves — and everybody evaluates again: the predicate verdict must
+                // be re-read from the state, not remembered
+                stats.bump("op_predicate_key_collected");
+                match rng.below(3) {
+                    0 => sim.set_with_ttl(n, "a", "x"),
+                    1 => {
+                        sim.set(n, "a", "x");
+                        sim.delete_after_ttl(n, "a");
+                    }
+                    _ => {
+                        sim.set(n, "a", "x");
+                        sim.delete(n, "a");
+                    }
+                }
+                let m = rng.below(live_nodes as u64) as usize;
+                if m != n {
+                    full_handshake(sim, m, n);
+                    sim.eval(m);
+                }
+                sim.eval(n);
+                sim.tick(kv_grace).await;
+                sim.gc(n);
+                if m != n {
+                    sim.gc(m);
+                    sim.eval(m);
+                }
+                sim.eval(n);
+            }
+            89..=93 => {
                 sim.eval(n);
                 stats.bump("op_eval");
             }
@@ -568,8 +636,19 @@ pub async fn gen_apply(sim: &mut Sim, rng: &mut Prng, stats: &mut Stats, name: &
             stats.bump("delta_bad_grammar");
         }
         let block = *rng.pick(&[16384usize, 7, 30, 64]);
+        // a hostile digest may name the RECEIVER ITSELF, with a heartbeat it never had (up to
+        // u64::MAX): a node's own heartbeat is its own business (C05) and must not be pushed to
+        // the overflow point (C09)
+        let self_entry = |rng: &mut Prng, entries: &mut Vec<(WId, u64, u64, u64)>, stats: &mut Stats| {
+            if hostile && rng.chance(1, 2) {
+                let hb = *rng.pick(&[2u64, 50, u64::MAX - 1, u64::MAX]);
+                entries.push((wid_of(&mk_id("r", 0, 3000)), hb, rng.below(4), rng.below(4)));
+                stats.bump("digest_names_receiver");
+            }
+        };
         let bytes = if rng.chance(1, 5) {
-            let entries: Vec<(WId, u64, u64, u64)> = wids.iter().map(|w| (w.clone(), rng.below(6), rng.below(8), rng.below(8))).collect();
+            let mut entries: Vec<(WId, u64, u64, u64)> = wids.iter().map(|w| (w.clone(), rng.below(6), rng.below(8), rng.below(8))).collect();
+            self_entry(rng, &mut entries, stats);
             synack_bytes(&entries, &ops, block, rng.chance(1, 2))
         } else {
             ack_bytes(&ops, block, rng.chance(1, 2))
@@ -580,11 +659,12 @@ pub async fn gen_apply(sim: &mut Sim, rng: &mut Prng, stats: &mut Stats, name: &
         if rng.chance(1, 2) {
             // whatever the delta left in the node's state, the node must still be able to answer a
             // peer that knows nothing (it gossips every member it holds) or that is one version behind
-            let entries: Vec<(WId, u64, u64, u64)> = if rng.chance(1, 2) {
+            let mut entries: Vec<(WId, u64, u64, u64)> = if rng.chance(1, 2) {
                 Vec::new()
             } else {
                 wids.iter().map(|w| (w.clone(), rng.below(6), rng.below(3), rng.below(8))).collect()
             };
+            self_entry(rng, &mut entries, stats);
             sim.deliver(0, &syn_bytes("c", &entries));
             stats.bump("syn_after_crafted_delta");
         }
@@ -735,6 +815,54 @@ pub async fn gen_delta(sim: &mut Sim, rng: &mut Prng, stats: &mut Stats, name: &
     spec.kv_grace_ns = 1_000;
     sim.join(spec);
     let me = mk_id("s", 0, 5000);
+    if rng.chance(1, 8) {
+        // budget sweep over members that are ahead only by their max version (top versions were
+        // collected tombstones: the node delta is a header plus one SetMaxVersion op), every budget
+        // from the minimum up: each boundary at which one more operation fits is visited
+        let nmem = rng.range(2, 5) as usize;
+        let noisy = rng.chance(2, 3);
+        let mut syn_entries = Vec::new();
+        let mut ids = Vec::new();
+        for i in 0..nmem {
+            // high-entropy names, generations, addresses, watermarks and versions in half of the
+            // sweeps: the block is then stored raw and the byte count is exact
+            let nm = if noisy { format!("w{i}{}", high_entropy_string(rng, 6)) } else { format!("w{i}") };
+            let generation = if noisy { rng.next_u64() >> 1 } else { 0 };
+            let id = if noisy {
+                let r = rng.next_u64();
+                ChitchatId::new(
+                    nm,
+                    generation,
+                    std::net::SocketAddr::new(
+                        std::net::IpAddr::V4(std::net::Ipv4Addr::new((r >> 8) as u8 | 1, (r >> 16) as u8, (r >> 24) as u8, (r >> 32) as u8 | 1)),
+                        1024 + (r >> 40) as u16 % 60_000,
+                    ),
+                )
+            } else if rng.chance(1, 4) {
+                mk_id6(&nm, generation, 5200 + i as u16)
+            } else {
+                mk_id(&nm, generation, 5200 + i as u16)
+            };
+            syn_entries.push((wid_of(&id), 1, 0, 0));
+            ids.push((id, noisy));
+        }
+        sim.deliver(0, &syn_bytes("c", &syn_entries));
+        for (id, noisy) in &ids {
+            let gc = if *noisy { rng.next_u64() >> 2 } else { *rng.pick(&[0u64, 3]) };
+            let ops = vec![WOp::Node { id: wid_of(id), gc, from: 0 }, WOp::SetMax(gc + 3 + rng.below(4))];
+            sim.deliver(0, &ack_bytes(&ops, 16384, false));
+        }
+        let mut dbytes = Vec::new();
+        put_digest(&mut dbytes, &[]);
+        for mtu in 100..(100 + 50 * nmem) {
+            if sim.dead_case {
+                break;
+            }
+            sim.delta(0, &digest_text(&[]), &dbytes, mtu, &[]);
+        }
+        stats.bump("delta_setmax_budget_sweeps");
+        return;
+    }
     let mode = rng.below(4);
     let big = mode != 0;
     // own keys
